@@ -436,6 +436,47 @@ func c12Agree(c *sim.Case) {
 	secs := []int{0, 3, 10, 60}
 	abs := time.Duration(secs[sim.Pick(c, "abs", len(secs))]) * time.Second
 	idle := time.Duration(secs[sim.Pick(c, "idle", len(secs))]) * time.Second
+	n := 3 + sim.Pick(c, "nops", 14)
+	c12AgreeCore(c, abs, idle, n, func(int) (string, string, int, time.Duration) {
+		if (abs > 0 || idle > 0) && sim.Weighted(c, "advance", 3, 2) == 1 {
+			// gaps are fractions of a limit: two gaps of 0.7 limits are each inside it and together beyond it
+			gaps := []time.Duration{time.Second, 2500 * time.Millisecond}
+			for _, lim := range []time.Duration{idle, abs} {
+				if lim > 0 {
+					gaps = append(gaps, lim*4/10, lim*7/10, lim*7/10, lim*13/10)
+				}
+			}
+			return "", "", 0, gaps[sim.Pick(c, "adv.gap", len(gaps))]
+		}
+		op := []string{"SetTok7", "SetTok0", "SetTok4", "SetAuth1", "SetAuth2", "GetTok", "GetAuth", "ClearAuth", "Remove"}[sim.Weighted(c, "op", 2, 1, 1, 1, 1, 3, 2, 3, 1)]
+		return op, []string{"a", "b"}[sim.Weighted(c, "id", 3, 1)], sim.Pick(c, "replica", 2), 0
+	})
+}
+
+// c12AgreeExh: every sequence of the given length over {6 operations on one id, a gap of 0.7 idle limits, a gap of
+// 0.4 absolute limits}, with and without an absolute timeout beside the idle timeout of 10 s.
+func c12AgreeExh(length int) func(c *sim.Case) {
+	alphabet := []string{"SetTok7", "SetAuth1", "GetTok", "GetAuth", "ClearAuth", "Remove", "gap-7s", "gap-12s"}
+	return func(c *sim.Case) {
+		first := sim.Pick(c, "abs+op", 2*len(alphabet))
+		abs := []time.Duration{0, 30 * time.Second}[first/len(alphabet)]
+		c12AgreeCore(c, abs, 10*time.Second, length, func(i int) (string, string, int, time.Duration) {
+			k := first % len(alphabet)
+			if i > 0 {
+				k = sim.Pick(c, "op", len(alphabet))
+			}
+			switch alphabet[k] {
+			case "gap-7s":
+				return "", "", 0, 7 * time.Second
+			case "gap-12s":
+				return "", "", 0, 12 * time.Second
+			}
+			return alphabet[k], "a", (i + k) % 2, 0
+		})
+	}
+}
+
+func c12AgreeCore(c *sim.Case, abs, idle time.Duration, n int, step func(i int) (op, id string, replica int, gap time.Duration)) {
 	clk := sim.NewVClock()
 	mem := sim.NewStore("memory", clk, abs, idle)
 	red := []oidc.SessionStore{sim.NewStore("redis", clk, abs, idle)}
@@ -446,7 +487,6 @@ func c12Agree(c *sim.Case) {
 	}
 	red = append(red, st2)
 	ctx := context.Background()
-	ids := []string{"a", "b"}
 	touched := map[string][]time.Time{} // every instant at which an operation named the id
 	tainted := map[string]bool{}
 	near := func(id string) bool {
@@ -463,32 +503,21 @@ func c12Agree(c *sim.Case) {
 		}
 		return false
 	}
-	n := 3 + sim.Pick(c, "nops", 20)
 	var seq []string
 	reads, clears, advancedPast := 0, 0, false
 	for i := 0; i < n; i++ {
-		if (abs > 0 || idle > 0) && sim.Weighted(c, "advance", 3, 1) == 1 {
-			var d time.Duration
-			if sim.Bool(c, "adv.to-limit") {
-				lim := idle
-				if lim == 0 || (abs > 0 && sim.Bool(c, "adv.abs")) {
-					lim = abs
-				}
-				d = lim*time.Duration(1+sim.Pick(c, "adv.frac", 4))/3 + time.Duration(sim.Pick(c, "adv.ms", 1000))*time.Millisecond
-			} else {
-				d = time.Duration(1+sim.Pick(c, "adv.s", 45)) * time.Second
-			}
+		op, id, rep, d := step(i)
+		if d > 0 {
 			clk.Advance(d)
 			seq = append(seq, fmt.Sprintf("+%v", d))
 			advancedPast = true
 			continue
 		}
-		op := c12Ops[sim.Pick(c, "op", len(c12Ops))]
-		id := ids[sim.Pick(c, "id", len(ids))]
-		r := red[sim.Pick(c, "replica", 2)]
+		r := red[rep%2]
 		seq = append(seq, op+"("+id+")")
 		wasNear := near(id)
 		var diverged string
+		foundBoth := false
 		switch {
 		case strings.HasPrefix(op, "SetTok"):
 			v := int(op[len(op)-1] - '0')
@@ -516,6 +545,7 @@ func c12Agree(c *sim.Case) {
 			} else if !tokEq(t1, t2) {
 				diverged = fmt.Sprintf("memory found=%v, redis found=%v (or different members)", t1 != nil, t2 != nil)
 			}
+			foundBoth = t1 != nil && t2 != nil
 		case op == "GetAuth":
 			a1, e1 := mem.GetAuthorizationState(ctx, id)
 			a2, e2 := r.GetAuthorizationState(ctx, id)
@@ -525,15 +555,17 @@ func c12Agree(c *sim.Case) {
 			} else if !authEq(a1, a2) {
 				diverged = fmt.Sprintf("memory found=%v, redis found=%v (or different members)", a1 != nil, a2 != nil)
 			}
+			foundBoth = a1 != nil && a2 != nil
 		}
 		touched[id] = append(touched[id], clk.Now())
 		isRead := op == "GetTok" || op == "GetAuth"
 		if op == "Remove" {
 			// both stores hold nothing under the id now, whatever they held
 			touched[id], tainted[id] = nil, false
-		} else if wasNear && (!isRead || diverged != "") {
-			// inside a tolerance band either view of the session is fine, and a write there lands on the old session
-			// in one store and on a new one in the other without showing: the id is not compared any more
+		} else if wasNear && !(isRead && diverged == "" && foundBoth) {
+			// inside a tolerance band either view of the session is fine, and an operation there lands on the old
+			// session in one store and on nothing (or a new one) in the other without showing - only a read that
+			// finds equal data in both proves that both still hold it: the id is not compared any more
 			tainted[id] = true
 			c.Class("agree:id-left-in-tolerance-band")
 		}
@@ -554,7 +586,7 @@ func c12Agree(c *sim.Case) {
 func TestC12(t *testing.T) {
 	r := sim.NewRun(t, "C12")
 	defer r.Finish()
-	r.Rule = "store operation sequences over ids {a,b,c}: SetTokens(v1 full | v2 without access/refresh token and expiry), GetTokens, SetLoginState(s1|s2), GetLoginState, ClearLoginState, Remove, clock advances (with an absolute timeout, for the creation-time clause); for Redis every op is routed to one of two store instances on one miniredis. Exhaustive: all sequences of a fixed length over a 16-letter (op,id) alphabet for both stores, compared with a plain-map model after every read and by a full scan through every replica at the end; random: sequences to length 60. Agreement tier: the same sequence (to length 22, with absolute and idle timeouts from {0,3,10,60} s and advances to fractions of a limit) on the memory store and on two Redis replicas at once; every read must find the same thing in both kinds of store outside the 1 s bands around every instant at which any reading of 'last used' could put a limit. Concurrent tier: 2-4 goroutines x 3-8 ops on 2 ids against the memory store, histories checked for linearizability with porcupine. Non-trivial = touches >= 2 ids and has a Clear/Remove followed by a later op on the same id (sequential) / has overlapping operations of different goroutines (concurrent)."
+	r.Rule = "store operation sequences over ids {a,b,c}: SetTokens(v1 full | v2 without access/refresh token and expiry), GetTokens, SetLoginState(s1|s2), GetLoginState, ClearLoginState, Remove, clock advances (with an absolute timeout, for the creation-time clause); for Redis every op is routed to one of two store instances on one miniredis. Exhaustive: all sequences of a fixed length over a 16-letter (op,id) alphabet for both stores, compared with a plain-map model after every read and by a full scan through every replica at the end; random: sequences to length 60. Agreement tier: the same sequence (exhaustively to length 5 [7] over six operations and two gaps with an idle timeout of 10 s with and without an absolute one, and randomly (to length 16, with absolute and idle timeouts from {0,3,10,60} s and advances to fractions of a limit) on the memory store and on two Redis replicas at once; every read must find the same thing in both kinds of store outside the 1 s bands around every instant at which any reading of 'last used' could put a limit. Concurrent tier: 2-4 goroutines x 3-8 ops on 2 ids against the memory store, histories checked for linearizability with porcupine. Non-trivial = touches >= 2 ids and has a Clear/Remove followed by a later op on the same id (sequential) / has overlapping operations of different goroutines (concurrent)."
 	r.Assumptions = []string{
 		"values respect caller preconditions: parseable ID token, non-empty login-state members",
 		"an error from Clear/Remove on an absent id is not a divergence (both stores leave the id absent)",
@@ -569,6 +601,7 @@ func TestC12(t *testing.T) {
 		"exh-memory-3": c12Exh("memory", 3), "exh-redis-3": c12Exh("redis", 3), "exh-memory-4": c12Exh("memory", 4), "exh-redis-4": c12Exh("redis", 4),
 		"exh-memory-5": c12Exh("memory", 5), "exh-redis-5": c12Exh("redis", 5),
 		"random": c12Random, "concurrent": c12Concurrent, "agree": c12Agree,
+		"agree-exh-5": c12AgreeExh(5), "agree-exh-7": c12AgreeExh(7),
 	}
 	if r.Replay != "" {
 		r.ReplayFile(parts)
@@ -579,5 +612,10 @@ func TestC12(t *testing.T) {
 	r.Exhaustive(fmt.Sprintf("exh-redis-%d", exLen), 0, parts["exh-redis"])
 	r.Rapid("random", r.N(6000, 200000), c12Random)
 	r.Rapid("concurrent", r.N(2000, 100000), c12Concurrent)
+	if r.Thorough() {
+		r.Exhaustive("agree-exh-7", 0, parts["agree-exh-7"])
+	} else {
+		r.Exhaustive("agree-exh-5", 0, parts["agree-exh-5"])
+	}
 	r.Rapid("agree", r.N(6000, 200000), c12Agree)
 }
